@@ -34,6 +34,12 @@ CORPUS = [
 ]
 
 
+def all_token_names():
+    """every member the package's Token enum has NOW (not only the ones this harness knows)"""
+    from prettyprinter.syntax import Token
+    return sorted(Token.__members__)
+
+
 def style_names():
     from pygments.styles import get_all_styles
     return sorted(get_all_styles()) + ['@light', '@dark']
@@ -59,7 +65,7 @@ def pygments_token(tok):
         'NUMBER_FLOAT': T.Number.Float, 'NUMBER_INT': T.Number.Integer, 'OPERATOR': T.Operator,
         'PUNCTUATION': T.Punctuation, 'COMMENT_SINGLE': T.Comment.Single,
     }
-    return table[tok.name]
+    return table.get(tok.name)       # None: a token this harness does not know (its style is not judged)
 
 
 def enumerate_cases(tier):
@@ -70,7 +76,7 @@ def enumerate_cases(tier):
                 if tier == 'quick' and (si + vi) % 2 and mode != 'true':
                     continue
                 yield {'kind': 'value', 'v': v, 'width': 30 if vi % 2 else 79, 'indent': 4, 'style': sname, 'mode': mode, 'end': '\n'}
-            for tn in TOKEN_NAMES:
+            for tn in all_token_names():
                 if tier == 'quick' and mode != 'true':
                     continue
                 yield {'kind': 'doc', 't': ['ann', ['tok', tn], ['t', 'x']], 'w': 20, 'style': sname, 'mode': mode}
@@ -137,7 +143,11 @@ def expected_states(sdocs, style, mode):
             if isinstance(a, Token):
                 inner = a
                 break
-        cur = sgr.RESET if inner is None else sgr.expected_state(style.style_for_token(pygments_token(inner)), mode)
+        if inner is None:
+            cur = sgr.RESET
+        else:
+            pt = pygments_token(inner)
+            cur = None if pt is None else sgr.expected_state(style.style_for_token(pt), mode)
     return out, maxtok, nontok_inside
 
 
@@ -213,12 +223,12 @@ def oracle(case):
         if li > 0:
             # the newline itself
             want = rl[0][1]
-            if states[pos] != want:
+            if want is not None and states[pos] != want:
                 return core.viol('wrong-style', 'newline before line %d: %r, expected %r' % (li, states[pos], want), [case['style']])
             pos += 1
         for ci, ch in enumerate(pl):
             want = rl_chars[ci][1]
-            if states[pos] != want:
+            if want is not None and states[pos] != want:
                 return core.viol('wrong-style', 'char %r (line %d col %d) has state %r, innermost token expects %r; style %s mode %s' % (
                     ch, li, ci, states[pos], want, case['style'], mode), [case['style']])
             pos += 1
